@@ -104,8 +104,8 @@ class Run:
         self.timeout_s = 60 if tier == "quick" else 300
         self.auto_fallback_samples = 12 if tier == "quick" else 60
         self.auto_fallback_tol = 1e-9
-        self.check_budget_s = 300 if tier == "quick" else 5400
-        self.explore_budget_s = 90 if tier == "quick" else 1500     # per scenario instance; exceeding it is UNDECIDED, never a verdict
+        self.check_budget_s = 300 if tier == "quick" else 2400
+        self.explore_budget_s = 90 if tier == "quick" else 600     # per scenario instance; exceeding it is UNDECIDED, never a verdict
         self.replay_dir = os.path.join(VERIF, "replays", pid)
         self.native_evals = 0
         self.native_distinct = set()
